@@ -1,4 +1,6 @@
-import Verif.Model.Parser
+import Verif.Lemmas.C05Sound
+import Verif.Lemmas.C05Stages
+import Verif.Lemmas.C05Expr
 import Verif.Gen.Tokens
 import Verif.Gen.Static
 import Verif.Gen.Prec
@@ -11,7 +13,7 @@ regenerated token table and static-rule tables (`Gen.tokenOf`, `Gen.validRange`,
 obtained by calling the lexer / parser on every entry, on every run) agree with the grammar written
 here by hand, and the named static rules hold of the model for every parameter, grouping and unwrap
 expression.  The parse-level theorems (accepted ⇒ statically well-formed; canonical writing ⇒ parsed
-back) are in `Props/C05Parse.lean`. -/
+back) follow in the second half of the file. -/
 namespace C05
 open Syntax
 
@@ -154,5 +156,91 @@ theorem C05_no_unwrap_on_log_query (re : ReEnv) (fuel : Nat) (rest : Parser.Toks
 -- non-vacuity: the table really contains accepting and rejecting entries
 example : Gen.validRange .quantile true true true = true ∧ Gen.validRange .quantile false true true = false := by decide
 example : Gen.validVec .topk 2 true = true ∧ Gen.validVec .sort 0 true = false := by decide
+
+
+/-! ## parse-level theorems
+
+Over `Parser.parse` (production-by-production model of `logql.Parse` on tokens, tied to the code by
+the C05 correspondence), for every regex oracle and every precedence table — unbounded in the size of
+the query:
+
+* **accepted ⇒ statically well-formed** (`C05_accepted_is_wellformed`): text that violates a static
+  rule (aggregation parameter / grouping / unwrap rules, invalid regex anywhere, duplicate
+  `label_format` target, duplicate or invalid named groups, empty drop/keep/distinct, ip filter with an
+  ordering operator, scalar operand of a set operation, …) is never accepted, whatever else it contains;
+* **canonical writing ⇒ parsed back node for node** (`C05_parse_roundtrip`): the structure a query text
+  denotes is the structure the parser returns — the same matchers, stages in order, operators,
+  literals, functions, parameters, grouping, range, offset and unwrap. -/
+
+open Parser Unparse
+
+/-- **C05 (static rules)**: whatever tree the parser returns satisfies every static rule. -/
+theorem C05_accepted_is_wellformed (re : ReEnv) (prec : Metric.BinOp → Nat) (isLogic : Metric.BinOp → Bool)
+    (toks : Toks) (e : Expr) (h : parse re prec isLogic toks = some e) : wfE re isLogic e = true :=
+  C05Sound.parse_wf re prec isLogic toks e h
+
+/-- contrapositive reading: a token list whose only candidate tree breaks a static rule is rejected -/
+theorem C05_static_violation_rejected (re : ReEnv) (prec : Metric.BinOp → Nat) (isLogic : Metric.BinOp → Bool)
+    (toks : Toks) (h : ∀ e, parse re prec isLogic toks = some e → wfE re isLogic e = false) :
+    parse re prec isLogic toks = none := by
+  cases hp : parse re prec isLogic toks with
+  | none => rfl
+  | some e =>
+    have h1 := C05Sound.parse_wf re prec isLogic toks e hp
+    have h2 := h e hp
+    rw [h1] at h2
+    exact absurd h2 (by decide)
+
+theorem C05_accepted_range_is_valid (re : ReEnv) (prec : Metric.BinOp → Nat) (isLogic : Metric.BinOp → Bool)
+    (toks : Toks) (op : Metric.RangeOp) (p : Option Rat) (sel : List Matcher)
+    (ss : List Stage) (r : Int) (o : Option Int) (u : Option Unwrap) (g : Option Grouping)
+    (h : parse re prec isLogic toks = some (.range op p sel ss r o u g)) :
+    validRange op p g u = true :=
+  C05Sound.parse_range_valid re prec isLogic toks op p sel ss r o u g h
+
+/-- **C05 (selector)**: a written selector is read back matcher for matcher. -/
+theorem C05_selector_roundtrip (re : ReEnv) : SelectorRT re := C05Stages.selector_roundtrip re
+
+/-- **C05 (pipeline)**: written stages are read back stage for stage, in order. -/
+theorem C05_pipeline_roundtrip (re : ReEnv) (L : Lits) : PipelineRT re L := C05Stages.pipeline_roundtrip re L
+
+/-- **C05 (meaning)**: every tree with a canonical writing is parsed back from it, node for node, for
+every regex oracle, precedence table and spelling of the literals. -/
+theorem C05_parse_roundtrip (re : ReEnv) (prec : Metric.BinOp → Nat) (isLogic : Metric.BinOp → Bool) (L : Lits)
+    (e : Expr) (hc : canonE re isLogic L e = true) :
+    parse re prec isLogic (exprToks L e) = some e :=
+  C05Expr.parse_roundtrip re prec isLogic L
+    (C05Stages.selector_roundtrip re) (C05Stages.pipeline_roundtrip re L)
+    (fun u rest hw hr => C05Stages.unwrap_roundtrip re u rest hw hr)
+    (fun r o rest hr ho hrest => C05Stages.rangeOffset_roundtrip L r o rest hr ho hrest)
+    (fun g rest hr => C05Stages.grouping_roundtrip g rest hr)
+    (fun ls rest => C05Stages.parenLabels_roundtrip ls rest)
+    e hc
+
+/-- writing is injective on canonical trees: two different canonical trees never share a writing
+(so no text has two meanings) -/
+theorem C05_writing_injective (re : ReEnv) (isLogic : Metric.BinOp → Bool) (L : Lits) (e₁ e₂ : Expr)
+    (h₁ : canonE re isLogic L e₁ = true) (h₂ : canonE re isLogic L e₂ = true)
+    (h : exprToks L e₁ = exprToks L e₂) : e₁ = e₂ := by
+  have r₁ := C05_parse_roundtrip re Gen.prec isLogic L e₁ h₁
+  have r₂ := C05_parse_roundtrip re Gen.prec isLogic L e₂ h₂
+  rw [h, r₂] at r₁
+  exact (Option.some.inj r₁).symm
+
+/-- the round trip composed with soundness: canonical trees are statically well-formed -/
+theorem C05_canonical_is_wellformed (re : ReEnv) (isLogic : Metric.BinOp → Bool) (L : Lits) (e : Expr)
+    (hc : canonE re isLogic L e = true) : wfE re isLogic e = true :=
+  C05_accepted_is_wellformed re Gen.prec isLogic _ e (C05_parse_roundtrip re Gen.prec isLogic L e hc)
+
+-- non-vacuity: a canonical tree with a binary operation, parentheses and a range aggregation
+private def exRe : ReEnv := ⟨fun _ => true, fun _ => []⟩
+private def exL : Lits :=
+  { dur := fun _ => [53, 109], num := fun v => if v = 1 then [49] else [50], byt := fun _ => [49, 66], int := fun _ => [50] }
+private def exE : Expr :=
+  .bin (.vagg .topk (some 2) (some ⟨false, [[97]]⟩) (.range .rate none [⟨[97], .eq, [98]⟩] [.lineFilter .eq [120] false] 300000000000 none none none))
+    .gt { bool := true } (.paren (.bin (.vector 1) .add {} (.vector 2)))
+example : canonE exRe Gen.isLogic exL exE = true := by decide +kernel
+example : (parse exRe Gen.prec Gen.isLogic (exprToks exL exE)).isSome = true := by
+  rw [C05_parse_roundtrip exRe Gen.prec Gen.isLogic exL exE (by decide +kernel)]; rfl
 
 end C05
